@@ -160,8 +160,15 @@ def afterOp (m : Mode) (d : DState) (read : Option (Nat × Int)) : String :=
 
 def clearLog (d : DState) : DState := { d with s := { d.s with log := [] } }
 
+/-- `Effect::new_sync`, `Effect::new_isomorphic` and `Effect::watch` (the body being the dependency function, the handler
+reading nothing) share the task loop and `EffectInner` of `Effect::new`: for the model they are `eff` nodes. -/
+def normKw (ws : List String) : List String :=
+  match ws with
+  | kw :: rest => if kw == "seff" || kw == "ieff" || kw == "weff" || kw == "wieff" then "eff" :: rest else ws
+  | [] => []
+
 def stepLine (m : Mode) (d : DState) (line : String) : DState × String :=
-  match words line with
+  match normKw (words line) with
   | ["case", n] => ({}, s!"case {n}")
   | ["mode", _] => (d, "ok")
   | ["wrap", _] => (d, "ok")   -- reads go through Signal::from / Signal::derive: transparent for the model
